@@ -42,7 +42,7 @@ func TestC12ClientRaces(t *testing.T) {
 	rapid.Check(t, func(rt *rapid.T) {
 		otelOn = rapid.Bool().Draw(rt, "otel")
 		scen := rapid.SampledFrom([]string{"script", "script", "stream-insert-telemetry", "stream-insert-telemetry", "foreign-close", "cancel", "ping-after",
-			"surplus-headers", "cancel+foreign-close"}).Draw(rt, "scenario")
+			"surplus-headers", "cancel+foreign-close", "nested-queries", "string-consumer"}).Draw(rt, "scenario")
 		rapid.SyncTest(rt, func(rt *rapid.T) {
 			switch scen {
 			case "script":
@@ -50,6 +50,8 @@ func TestC12ClientRaces(t *testing.T) {
 				out, e := runScript(rt, s, nil, nil)
 				_ = out
 				e.conn.ForceClose()
+			case "string-consumer":
+				raceStrings(rt)
 			default:
 				raceInsert(rt, scen)
 			}
@@ -109,6 +111,39 @@ func raceInsert(rt *rapid.T, scen string) {
 	e.srv.Steps = append(e.srv.Steps, itemStep(Item{Kind: "eos"}, simnet.AfterInputEnd, 0, nil))
 	opt := baseOptions(54460, comp)
 	opt.ReadTimeout = 200 * time.Millisecond
+	// nested-queries: the callbacks of this (instrumented) query run queries of their own on other
+	// clients - one client per calling goroutine, not instrumented - under the context they were given.
+	var nested [2]*ch.Client
+	if scen == "nested-queries" {
+		opt.OpenTelemetryInstrumentation = true
+		for i := range nested {
+			e2 := newEnv(54460)
+			defer e2.conn.ForceClose()
+			for j := 1; j <= 16; j++ {
+				e2.srv.Steps = append(e2.srv.Steps,
+					itemStep(Item{Kind: "data", Block: &ref.Block{Columns: []ref.Column{{Name: "n", T: ref.Fixed("UInt8", 1), Rows: []ref.Val{[]byte{byte(j)}}}}}}, simnet.AfterQuery(j), 0, nil),
+					itemStep(Item{Kind: "progress", Progress: ref.Progress{Rows: 1, Bytes: 1}}, nil, 0, nil),
+					itemStep(Item{Kind: "eos"}, nil, 0, nil))
+			}
+			o2 := baseOptions(54460, compModes[0])
+			o2.OpenTelemetryInstrumentation = false
+			c2, err := e2.connect(context.Background(), o2)
+			if err != nil {
+				rt.Fatalf("connect (nested client): %v", err)
+			}
+			defer c2.Close()
+			nested[i] = c2
+		}
+	}
+	var nestedRuns [2]int
+	runNested := func(ctx context.Context, i int) {
+		if nested[i] == nil || nestedRuns[i] >= 15 {
+			return
+		}
+		nestedRuns[i]++
+		var res proto.Results
+		_ = nested[i].Do(ctx, ch.Query{Body: "SELECT n FROM other", Result: res.Auto(), OnProgress: func(context.Context, proto.Progress) error { return nil }})
+	}
 	client, err := e.connect(context.Background(), opt)
 	if err != nil {
 		rt.Fatalf("connect: %v", err)
@@ -127,6 +162,7 @@ func raceInsert(rt *rapid.T, scen string) {
 	q := ch.Query{Body: "INSERT INTO t VALUES", Input: protoInput(cols),
 		OnInput: func(ctx context.Context) error {
 			jitter()
+			runNested(ctx, 0)
 			round++
 			if round >= rounds {
 				for _, c := range cols {
@@ -140,8 +176,8 @@ func raceInsert(rt *rapid.T, scen string) {
 			}
 			return nil
 		},
-		OnProgress:      func(ctx context.Context, p proto.Progress) error { jitter(); return nil },
-		OnProfileEvents: func(ctx context.Context, e []ch.ProfileEvent) error { jitter(); return nil },
+		OnProgress:      func(ctx context.Context, p proto.Progress) error { jitter(); runNested(ctx, 1); return nil },
+		OnProfileEvents: func(ctx context.Context, e []ch.ProfileEvent) error { jitter(); runNested(ctx, 1); return nil },
 		OnLogs:          func(ctx context.Context, l []ch.Log) error { return nil },
 	}
 	if rapid.Bool().Draw(rt, "rich-query") {
@@ -187,4 +223,81 @@ func raceInsert(rt *rapid.T, scen string) {
 	}
 	_ = client.Close()
 	_ = fmt.Sprint
+}
+
+// raceStrings: a result of several blocks with String columns; OnResult walks the rows with the
+// columns' accessors (ForEach, Row, First) and hands the strings it gets - Go strings, immutable
+// values - to a worker goroutine that reads them while the query goes on decoding later blocks.
+func raceStrings(rt *rapid.T) {
+	comp := compModes[rapid.SampledFrom([]int{0, 2}).Draw(rt, "compression")]
+	e := newEnv(54460)
+	defer e.conn.ForceClose()
+	nblocks := rapid.IntRange(2, 5).Draw(rt, "blocks")
+	rows := rapid.IntRange(1, 4).Draw(rt, "rows")
+	width := rapid.SampledFrom([]int{1, 8, 40, 300}).Draw(rt, "value-bytes")
+	k := gen.ByName["String|X|String"]
+	for b := 0; b < nblocks; b++ {
+		var vals []ref.Val
+		for i := 0; i < rows; i++ {
+			vals = append(vals, gen.Expand(uint64(b*100+i+1), width))
+		}
+		var when func(*ref.ClientStream) bool
+		if b == 0 {
+			when = simnet.AfterQuery(1)
+		}
+		e.srv.Steps = append(e.srv.Steps, itemStep(Item{Kind: "data", Block: &ref.Block{Columns: []ref.Column{{Name: "s", T: k.T, Rows: vals}}}}, when, comp.Method, nil))
+	}
+	e.srv.Steps = append(e.srv.Steps, itemStep(Item{Kind: "eos"}, nil, 0, nil))
+	client, err := e.connect(context.Background(), baseOptions(54460, comp))
+	if err != nil {
+		rt.Fatalf("connect: %v", err)
+	}
+	defer client.Close()
+	var col proto.ColStr
+	work := make(chan string, 1024)
+	var sum atomic.Int64
+	var wg sync.WaitGroup
+	wg.Add(1)
+	go func() {
+		defer wg.Done()
+		for s := range work {
+			runtime.Gosched()
+			// (a copy, not indexing: the compiler does not instrument loads from string data,
+			// the runtime's copy routines do)
+			own := append([]byte(nil), s...)
+			sum.Add(int64(len(own)))
+		}
+	}()
+	how := rapid.SampledFrom([]string{"ForEach", "Row", "First"}).Draw(rt, "accessor")
+	q := ch.Query{Body: "SELECT s FROM t", Result: proto.Results{{Name: "s", Data: &col}},
+		OnResult: func(ctx context.Context, b proto.Block) error {
+			switch how {
+			case "ForEach":
+				return col.ForEach(func(i int, s string) error { work <- s; return nil })
+			case "Row":
+				for i := 0; i < col.Rows(); i++ {
+					work <- col.Row(i)
+				}
+			case "First":
+				if col.Rows() > 0 {
+					work <- col.First()
+				}
+			}
+			return nil
+		}}
+	done := make(chan struct{})
+	var derr error
+	go func() { defer close(done); derr = client.Do(context.Background(), q) }()
+	select {
+	case <-done:
+	case <-time.After(2 * time.Minute):
+		e.conn.ForceClose()
+		<-done
+		rt.Fatalf("string-consumer: Do did not return")
+	}
+	close(work)
+	wg.Wait()
+	if derr != nil {
+		rt.Fatalf("string-consumer: %d blocks of %d rows: %v", nblocks, rows, derr)
+	}
 }
